@@ -126,7 +126,7 @@ def _chain(fn, target):
     return go(fn.body) or []
 
 
-def outline(cls_node, fn, marker, name, order_hint=()):
+def outline(cls_node, fn, marker, name, order_hint=(), extend_forward=True):
     """move the side-effect free region of method `fn` around expression node `marker` into a new method `name` of cls_node;
     returns the new FunctionDef or None when the conditions do not hold"""
     if not fn.args.args or fn.args.args[0].arg != 'self':
@@ -184,6 +184,12 @@ def outline(cls_node, fn, marker, name, order_hint=()):
             break
     stmts, idx = chain[level]
     region = [stmts[idx]]
+    # widened forward over the effect-free statements that go on computing with what the region produced
+    j = idx + 1
+    while extend_forward and j < len(stmts) and isinstance(stmts[j], (ast.Assign, ast.If)) and not _foreign(stmts[j], mids) and \
+            set(_names([stmts[j]], ast.Load)) & set(_names(region, ast.Store)):
+        region.append(stmts[j])
+        j += 1
     rids = {id(x) for s in region for x in ast.walk(s)}
     writes = _names(region, ast.Store)
     if set(writes) & captured or 'self' in writes:
@@ -208,7 +214,7 @@ def outline(cls_node, fn, marker, name, order_hint=()):
     ret = ast.Return(value=ast.Name(id=outs[0], ctx=ast.Load()) if len(outs) == 1 else
                      ast.Tuple(elts=[ast.Name(id=x, ctx=ast.Load()) for x in outs], ctx=ast.Load()))
     helper = make(region + [ret], ins)
-    stmts[idx] = ast.copy_location(ast.Assign(targets=[tgt], value=call(ins)), region[0])
+    stmts[idx:idx + len(region)] = [ast.copy_location(ast.Assign(targets=[tgt], value=call(ins)), region[0])]
     cls_node.body.append(helper)
     ast.fix_missing_locations(helper)
     return helper
@@ -304,6 +310,8 @@ ROLES = [
     # (module, class, pinned owner of the marker, marker predicate (or factory taking the class), name of the synthetic method, kind)
     ('playback.tape_recorder', 'TapeRecorder', '_should_sample_active_recording', _is_draw, '_sampling_decision__outlined', 'pure'),
     ('playback.studio.equalizer', 'Equalizer', '_handle_compare_execution_timeout', _is_kill_call, '_timeout_path__outlined', 'block'),
+    ('playback.interception.files.file_interception', 'FileInterception', '_serialize_file',
+     lambda n: isinstance(n, ast.Call) and isinstance(n.func, ast.Attribute) and n.func.attr == 'b64encode', '_serialize__outlined', 'pure'),
     ('playback.studio.studio', 'PlaybackStudio', '_group_recording_ids_by_categories',
      lambda n: isinstance(n, ast.Call) and isinstance(n.func, ast.Attribute) and n.func.attr == 'extract_recording_category',
      '_grouping__outlined', 'block'),
